@@ -9,6 +9,7 @@
 // <files> = the property files of the case, `name=hex(content)` joined by commas: the bytes are written verbatim,
 // the model parses them itself (Model/ConfigDecode.v prop_of_files).
 //
+//	app  <iface> <name> <mut> <path> <oracle> <env> <files> <section>   see applied.go
 //	hdr  <n> <hex,hex,...>                                     util.DecodeHeader on every line + util.DecodeHTTPConfigHeaders on the list
 //	prop <hex content> <hex key>                                the content written to a file, confutil.PropertyTagResolver("file#key")
 //
@@ -71,7 +72,7 @@ func main() {
 		case "corpus":
 			printCorpus()
 			return
-		case "probe2":
+		case "applied":
 			probe2()
 			return
 		}
@@ -470,6 +471,16 @@ func run(cases []string) []string {
 			touchFiles(tree)
 			touchLiteral(f[3])
 			res = decodeComp(reg, string(vh.UnHex(f[1])), string(vh.UnHex(f[2])), tree)
+			undo()
+		case f[0] == "app" && len(f) == 9:
+			tree, err := s.ParseToken(f[8])
+			if err != nil {
+				res = "badcase"
+				break
+			}
+			undo := setupEnv(f[6], f[7])
+			touchFiles(tree)
+			res = runApp(reg, string(vh.UnHex(f[1])), string(vh.UnHex(f[2])), tree)
 			undo()
 		case f[0] == "cli" && len(f) == 7:
 			tree, err := s.ParseToken(f[6])
@@ -1528,6 +1539,8 @@ func gen(r *vh.Rand, tier string) []string {
 		}
 	}
 	out = append(out, genDirect(r, thorough)...)
+	// D. the option applied to the component: sections decoded through the plugin hook, products searched for what they hold
+	genApp(reg, r, thorough, &out)
 	return out
 }
 
